@@ -378,7 +378,8 @@ DEGENERATE = {
     'group-second-empty': lambda m: m['groups'].append({'name': 'g2', 'items': [], 'note': '', 'color': None, 'comment': None}),
     'enum-one-item-bare': lambda m: m['enums'][1].update(items=[{'name': 'z', 'note': '', 'comment': None}]),
     'table-notes-empty': lambda m: [t.update(note='') for t in m['tables']],
-    'table-one-column': lambda m: m['tables'][2].update(columns=m['tables'][2]['columns'][:1]),
+    'table-one-column': lambda m: (m['tables'][2].update(columns=m['tables'][2]['columns'][:1]),
+                                   m.__setitem__('refs', [r for r in m['refs'] if not any(c[1] == 'c' and c[2] != 'id' for c in r['col1'] + r['col2'])])),
     'no-project': lambda m: m.__setitem__('project', None),
     'no-enum-use': lambda m: m['tables'][0]['columns'][2].update(type=['str', 'int'], default=['none']),
     'refs-all-standalone': lambda m: [r.update(inline=False) for r in m['refs']],
